@@ -116,8 +116,9 @@ Call ==
 \* integrators/base.py validate_inputs
 ValidInputs(g) == Len(g) >= 2 /\ (AllEqual(g) \/ Ascending(g) \/ Descending(g))
 
+\* class b is reported as a copy of class a for systems where only one class is observed (~c.two)
 FlowSolution(c, ws, g) ==
-    Result(FALSE, g, FlowSamples(c, ws.a, g), FlowSamples(c, ws.b, g))
+    Result(FALSE, g, FlowSamples(c, ws.a, g), FlowSamples(c, IF c.two THEN ws.b ELSE ws.a, g))
 ConstSolution(c, g) == Result(FALSE, g, ConstSamples(c, g), ConstSamples(c, g))
 
 \* the vector field of a polynomial Hamiltonian system reached through `system.rhs`
